@@ -4,8 +4,9 @@ from __future__ import annotations
 from props import wsmodel as W
 
 ID = "C02"
-PROPERTIES_V = "theories/Properties/C02.v"
-CASE_IMPORTS = "From GV Require Import Prelude.Base Model.Ws Model.WsCheck."
+PROPERTIES_V = "theories/Properties/C02X.v"
+CHUNK = 8  # histories are heavy terms (a dump of tree and file after every op): small case files, evaluated in parallel
+CASE_IMPORTS = "From GV Require Import Prelude.Base Model.WsX Model.WsXCheck."
 ALLOWED_AXIOMS: list = []
 REFUTED = ["C02_valid_refuted (witness ops_orphan: removal through the parent + close leaves an orphan; open known finding)", "C02_close_valid_refuted", "C02_valid_upto_refuted", "C02_step_refuted (witness ops_forgot: a re-open forgets a pending object/data identifier whose node stays)"]
 PARTIAL = ["C02_valid_upto_orphans (for ALL fresh histories the file represents the tree up to pending/forgotten orphan nodes of dead objects/data)", "C02_close_valid_partial (Valid at close when only dead groups are pending and no earlier re-open forgot an orphan)", "C02_close_valid_nolinger", "C02_step_partial", "C02_valid_upto_partial"]
@@ -15,8 +16,8 @@ LEVEL_TEXT = ("Unbounded Coq theorems: Valid f := the file is exactly the encodi
               "parent: open known finding). Type links and property-group membership are outside the Coq model: checked at every close by an independent validator (oracle).")
 TRUSTED = [
     "Coq 8.16.1 kernel + vm_compute (refutation witnesses, correspondence evaluation); Print Assumptions: closed under the global context for every theorem",
-    "hand-written model coq/theories/Model/Ws.v (memory tree + geoh5 file as a link graph with addresses) of Workspace.{create_entity, register, save_entity, update_attribute, remove_entity, remove_recursively, remove_children, remove_none_referents, close, open/fetch_or_create_root/fetch_children/load_entity}, Entity.parent setter, EntityContainer/ObjectBase.{add_children, remove_children}, H5Writer.{save_entity, write_entity, write_to_parent, remove_child, remove_entity, update_field/write_attributes/write_array_attribute/write_data_values}, H5Reader.{fetch_attributes, fetch_children}; tied to the code by comparing, after EVERY operation of generated histories, the live tree and a raw h5py dump of the file with the model (vm_compute)",
-    "modelled classes: RootGroup/ContainerGroup, Points, FloatData (one array token each); property groups, types, copies, other classes and concatenated drillholes are outside the Coq model and reach the check through the implementation-side oracle streams only",
+    "hand-written model coq/theories/Model/WsX.v (memory tree + geoh5 file as a link graph with addresses; property groups; copies) of Workspace.{create_entity, register, save_entity, update_attribute, remove_entity, remove_recursively, remove_children, remove_none_referents, close, open/fetch_or_create_root/fetch_children/load_entity, copy_to_parent, copy_property_groups, add_or_update_property_group}, ObjectBase.{add_data_to_group, find_or_create_property_group, remove_data_from_groups, copy}, Group.copy, Data.copy, PropertyGroup.{add_properties, remove_properties}, Entity.parent setter, EntityContainer/ObjectBase.{add_children, remove_children}, H5Writer.{save_entity, write_entity, write_to_parent, remove_child, remove_entity, update_field/write_attributes/write_array_attribute/write_data_values}, H5Reader.{fetch_attributes, fetch_children}; tied to the code by comparing, after EVERY operation of generated histories, the live tree and a raw h5py dump of the file with the model (vm_compute)",
+    "modelled classes: RootGroup/ContainerGroup, Points, FloatData (one array token each), property groups (identifier, name, ordered members), copies of data/objects/group subtrees within the workspace; types, cross-workspace copies, other classes and concatenated drillholes are outside the Coq model and reach the check through the implementation-side oracle streams only",
     "CPython/weakref/gc: the driver drops its references and runs gc.collect() after every operation, so 'dead' = 'not reachable from the root'; GC placement is represented by the explicit Sweep (listing getter) operations of the history",
     "h5py/HDF5 behaviour (hard links = same object address, member iteration by name, attribute and dataset storage) is observed, not verified",
     "tools/props/wsmodel.py (history generator, driver, canonicalisation of identifiers uuid.UUID(int=n+1) <-> n, raw dump, node digests, structural validator) and tools/props/wsext.py (extended oracle-only histories)",
@@ -37,7 +38,7 @@ def generate(rng, tier):
     from props import wsext
 
     n = 60 if tier == "quick" else 1500
-    cases = [{"ops": W.gen_history(rng.fork(1000 + i), rng.range(10, 28), {"final_sweeps": i % 2 == 0})} for i in range(n)]
+    cases = [{"ops": W.gen_history_x(rng.fork(1000 + i), rng.range(10, 24))} for i in range(n)]
     m = 40 if tier == "quick" else 1000
     cases += [{"ext": True, "ops": wsext.gen_ext_history(rng.fork(6000 + i), rng.range(20, 36))} for i in range(m)]
     return cases
@@ -48,19 +49,19 @@ def drive_one(case, work):
         from props import wsext
 
         return wsext.run_ext_history(case["ops"], work, "c02x")
-    return W.run_history(case["ops"], work, "c02")
+    return W.run_history_x(case["ops"], work, "c02")
 
 
 def case_term(case, obs):
     if case.get("ext"):
         return None
-    return W.history_case_term(case["ops"], obs["steps"])
+    return W.history_case_term_x(obs["ops_filled"], obs["steps"])
 
 
 def model_term(case):
     if case.get("ext"):
         return None
-    return "trace init %s" % W.clist(W.cop(o) for o in case["ops"])
+    return None
 
 
 def oracle_ext(case, obs):
@@ -144,7 +145,7 @@ def oracle(case, obs):
         return [{"key": "driver-crash", "what": obs["crash"][:300]}]
     if case.get("ext"):
         return oracle_ext(case, obs)
-    ops, steps = case["ops"], obs["steps"]
+    ops, steps = obs.get("ops_filled", case["ops"]), obs["steps"]
     for i, st in enumerate(steps):
         if str(st["outcome"]).startswith("error"):
             return [{"key": "unexpected-exception", "what": f"op {i} {ops[i]}: {st['outcome']}"}]
